@@ -360,6 +360,10 @@ func genC06(c *RunCtx) []*Batch {
 		"(= ss0 ss1)", "(= ss0 ss0)", "(!= ss0 ss1)", "(eq ss0 ss1 ss0)", "(ne si0 si0)", "(= ss0 1)", "(in \"a\" ss0)", "(in 1 si0)", "(in ss0 ss1)", "(overlap ss0 ss1)", "(and (= si0 si0) true)", "(if (= ss0 ss1) 1 2)", "(+ ss0 1)", "(not ss0)", "(between si0 1 2)"} {
 		try(s, false, "handwritten")
 	}
+	// operand-stack depths around the 8/16 allocation classes with every kind of node (incl. a zero-operand call) deepest
+	for _, bt := range boundaryTrees() {
+		try(bt.Src(), false, "boundary-depth")
+	}
 	for _, s := range []string{"", " ", ";", "a +", "* a", "+", "a * !b", "[", "1 + [", "]", "1 + ", "(1", "1)", "f(", "f(1,", "f(,)", "if(true,1)", "if(true,1,2,3)", "!!true", "!", "1 2", "a b", "[1, \"a\"]", "[1 2]", "c_now()", "c_sum(1,)", ",", "(,)", "1 + (2", "!(1", "a && ", "|| a", "a == == b"} {
 		try(s, true, "handwritten")
 	}
